@@ -572,6 +572,32 @@ func init() {
 					}
 				}
 			}
+			// the other direction: type syntax is accepted wholesale. The walk visits the children of the type
+			// nodes it accepts, so every node kind that occurs only inside a type must be accepted too, or
+			// struct{…}{…}, []interface{}{…}, [...]T{…} and G[A, B]{…} are refused although nothing in them can run.
+			accepted := map[string]bool{}
+			for _, s := range sw.Body.List {
+				cc := s.(*ast.CaseClause)
+				if len(rejects(cc.Body)) > 0 {
+					continue
+				}
+				nested := false
+				ast.Inspect(cc, func(nd ast.Node) bool {
+					if st, ok := nd.(ast.Stmt); ok && setsFalse(st) {
+						nested = true
+					}
+					return true
+				})
+				if nested {
+					continue
+				}
+				for _, e := range cc.List {
+					accepted[types.ExprString(e)] = true
+				}
+			}
+			for _, t := range []string{"ArrayType", "ChanType", "FuncType", "InterfaceType", "MapType", "StructType", "FieldList", "Field", "Ellipsis", "IndexListExpr"} {
+				r.Check(accepted["*ast."+t], "type-syntax:*ast."+t, sw.Pos(), "type syntax node %s is accepted (it occurs inside the type of a composite literal, conversion or assertion and cannot execute)", t)
+			}
 			r.Check(hasDefault, "default-present", sw.Pos(), "the node-kind switch has a default")
 			r.Check(okCall, "call-only-conversion", sw.Pos(), "a call node is rejected exactly when its Fun is not a type expression and has a function type, defined function types included (only conversions and constant-folded builtins pass)")
 			r.Check(okUnary, "unary-not-receive", sw.Pos(), "a unary node is rejected exactly when its operator is <-")
@@ -821,7 +847,7 @@ func init() {
 						what = "obj.Parent()"
 					case af.isCall(d, "go/types.Info.ObjectOf", pathW+".referencedObject") != nil:
 						what = "obj" // an identifier that denotes no object has nothing to reject (and nothing to ask)
-					case af.isCall(d, "go/types.Info.TypeOf") != nil:
+					case af.isCall(d, "go/types.Info.TypeOf") != nil, af.Info.TypeOf(x) != nil && types.TypeString(af.Info.TypeOf(x), nil) == "go/types.Type":
 						what = "type"
 					case isErrorType(af.Info.TypeOf(x)) && af.C.failureRet[callOf(d)] != nil:
 						what = "helper-error" // the error of a helper analysed in place: its own conditions follow
@@ -833,6 +859,20 @@ func init() {
 				}
 				if g.Loop {
 					return "loop"
+				}
+				// start <= pos && pos < end on positions: the object is declared inside the expression being moved
+				if be, ok := ast.Unparen(g.Expr).(*ast.BinaryExpr); ok && be.Op == token.LAND {
+					isPosCmp := func(e ast.Expr) bool {
+						c, ok := ast.Unparen(e).(*ast.BinaryExpr)
+						if !ok || (c.Op != token.LEQ && c.Op != token.LSS && c.Op != token.GEQ && c.Op != token.GTR) {
+							return false
+						}
+						tx, ty := af.Info.TypeOf(c.X), af.Info.TypeOf(c.Y)
+						return tx != nil && ty != nil && types.TypeString(tx, nil) == "go/token.Pos" && types.TypeString(ty, nil) == "go/token.Pos"
+					}
+					if isPosCmp(be.X) && isPosCmp(be.Y) {
+						return neg + "declared-inside"
+					}
 				}
 				if x, ne, ok := af.lenTest(g); ok && ne {
 					if f := af.selField(x); f != nil && f.Name() == "Elts" {
@@ -883,7 +923,7 @@ func init() {
 				for _, g := range rj.conds {
 					s := classify(g)
 					all = append(all, s)
-					if s == "err==nil" || s == "ok" || s == "!ok" || s == "obj.Pkg()!=nil" || s == "obj!=nil" || s == "type!=nil" || s == "loop" || s == "literal-has-elements" || s == "helper-error!=nil" {
+					if s == "err==nil" || s == "ok" || s == "!ok" || s == "obj.Pkg()!=nil" || s == "obj!=nil" || s == "type!=nil" || s == "loop" || s == "literal-has-elements" || s == "helper-error!=nil" || s == "!declared-inside" {
 						continue
 					}
 					// "the other rejection did not fire" (its if-body ends the callback)
@@ -905,12 +945,25 @@ func init() {
 				switch strings.Join(core, " ∧ ") {
 				case "!IsExported(ident.Name) ∧ pkg.Path()!=wantPkg":
 					unexported = true
+					r.Check(strings.Contains(got, "!declared-inside"), "reject/unexported-foreign/not-own-declarations", rj.as.Pos(), "names the expression itself declares (parameters of a function type, fields of a struct type) are exempt: they move with it")
 					r.Ok("reject/unexported-foreign", rj.as.Pos(), "an identifier is rejected when it is unexported and belongs to another package — under exactly: %s", got)
 				case "!field.Exported() ∧ pkg.Path()!=wantPkg":
 					literal = true
+					// the literal's recorded type may be *T (an element literal with elided type in []*T{{…}})
+					through := false
+					ast.Inspect(lit.Body, func(nd ast.Node) bool {
+						if as2, ok := nd.(*ast.AssignStmt); ok && len(as2.Lhs) == 1 && len(as2.Rhs) == 1 && as2.Tok == token.ASSIGN {
+							if af.isCall(as2.Rhs[0], "go/types.Pointer.Elem") != nil && af.Info.TypeOf(as2.Lhs[0]) != nil && types.TypeString(af.Info.TypeOf(as2.Lhs[0]), nil) == "go/types.Type" {
+								through = true
+							}
+						}
+						return true
+					})
+					r.Check(through, "reject/unkeyed-literal/through-pointer", rj.as.Pos(), "the struct is found through a pointer type too (element literals of []*T / map[K]*T)")
 					r.Ok("reject/unkeyed-literal-unexported-field", rj.as.Pos(), "an unkeyed struct literal is rejected when the struct has an unexported field of another package — under exactly: %s", got)
 				case "obj.Parent()!=nil ∧ obj.Parent()!=pkg.Scope()":
 					scope = true
+					r.Check(strings.Contains(got, "!declared-inside"), "reject/not-package-scope/not-own-declarations", rj.as.Pos(), "names the expression itself declares are exempt: they move with it")
 					r.Ok("reject/not-package-scope", rj.as.Pos(), "a declared object is rejected when it is not at package scope — under exactly: %s", got)
 				default:
 					r.Bad("reject/unknown-condition", rj.as.Pos(), "rejection under an unrecognised or narrowed condition: %s", got)
